@@ -62,6 +62,19 @@ fn eq_json<T: Queryable>(lhs: &T, rhs: &T) -> bool {
 
     if let (Some(lhs_num), Some(rhs_num)) = (lhs_f64, rhs_f64) {
         lhs_num == rhs_num
+    } else if let (Some(lhs_arr), Some(rhs_arr)) = (lhs.as_array(), rhs.as_array()) {
+        lhs_arr.len() == rhs_arr.len()
+            && lhs_arr
+                .iter()
+                .zip(rhs_arr.iter())
+                .all(|(l, r)| eq_json(l, r))
+    } else if let (Some(lhs_obj), Some(rhs_obj)) = (lhs.as_object(), rhs.as_object()) {
+        lhs_obj.len() == rhs_obj.len()
+            && lhs_obj.iter().all(|(key, l)| {
+                rhs_obj
+                    .iter()
+                    .any(|(rhs_key, r)| key == rhs_key && eq_json(*l, *r))
+            })
     } else {
         lhs == rhs
     }
